@@ -18,6 +18,8 @@ import (
 
 var extraCmds = map[string]func([]string) int{}
 
+var skipPrefix string
+
 // ---------------------------------------------------------------------------------------------
 // Mutant index: /verif/mutants/index.json lists patches (inverse-of-fix commits and the seeded
 // changes kept under /verif/seeded) with the properties whose check is expected to report them.
@@ -195,6 +197,9 @@ func runMutants(vd, repo, prop string, par int) ([]mutantResult, error) {
 	}
 	var jobs []job
 	for _, m := range ms {
+		if skipPrefix != "" && strings.HasPrefix(m.ID, skipPrefix) {
+			continue
+		}
 		for _, p := range m.Properties {
 			if prop == "" || p == prop {
 				jobs = append(jobs, job{m, p})
@@ -394,7 +399,9 @@ func cmdSelftest(args []string) int {
 	prop := fs.String("property", "", "property (default all)")
 	repo := fs.String("repo", "/repo", "repository")
 	par := fs.Int("j", 4, "parallel processes")
+	skip := fs.String("skip", "", "skip mutants whose id starts with this prefix (e.g. seeded-)")
 	fs.Parse(args)
+	skipPrefix = *skip
 	res, err := runMutants(verifDir(), *repo, *prop, *par)
 	if err != nil {
 		fmt.Fprintln(os.Stderr, err)
